@@ -864,7 +864,7 @@ func execCase(c core.Case) (out []string) {
 		return w
 	}
 	w := newWorld(0)
-	lc := &lctx{}
+	lc := &lctx{tmp: tmp}
 	noteMsgs := func(ms []msgT) {
 		for _, m := range ms {
 			if m.isSnap {
